@@ -472,6 +472,57 @@ func execFind(toks []string) string {
 	if showAVPs(m.AVP) != treeBefore {
 		tail += " tree=changed"
 	}
+	// edit=<k>: the application edits the tree below the top level (the message API is not
+	// involved) and asks again: the answer is the reference walk of the tree as it is now
+	if ek, ok := kvGet(toks, "edit"); ok && tail == "" {
+		code, _ := codes[len(codes)-1].(uint32)
+		var firstGroup *diam.GroupedAVP
+		var leaf *diam.AVP
+		var walk func(as []*diam.AVP)
+		walk = func(as []*diam.AVP) {
+			for _, a := range as {
+				if g, ok := a.Data.(*diam.GroupedAVP); ok {
+					if firstGroup == nil {
+						firstGroup = g
+					}
+					walk(g.AVP)
+				} else if leaf == nil || (a.Code == code && leaf.Code != code) {
+					leaf = a
+				}
+			}
+		}
+		walk(m.AVP)
+		mk := func() *diam.AVP {
+			if leaf == nil {
+				return diam.NewAVP(code, 0x40, 0, datatype.OctetString("edit"))
+			}
+			cp := *leaf
+			cp.Code = code
+			return &cp
+		}
+		done := false
+		switch ek {
+		case "1": // one more member in a group that is already part of the message
+			if firstGroup != nil {
+				firstGroup.AddAVP(mk())
+				done = true
+			}
+		case "2": // the last top-level AVP is replaced
+			if len(m.AVP) > 1 {
+				m.AVP[len(m.AVP)-1] = mk()
+				done = true
+			}
+		case "3": // a group is emptied
+			if firstGroup != nil && len(firstGroup.AVP) > 0 {
+				firstGroup.AVP = nil
+				done = true
+			}
+		}
+		if done {
+			after, _ := run()
+			tail += " edited=" + showAVPs(m.AVP) + " after=" + after
+		}
+	}
 	return first + tail
 }
 
@@ -1207,7 +1258,11 @@ func genFind(r *RNG) string {
 		for _, c := range append(path, X) {
 			cs = append(cs, strconv.Itoa(int(c)))
 		}
-		return fmt.Sprintf("codec find d=default app=0 %s q=path:%s", showAVPs(as), strings.Join(cs, "."))
+		ed := ""
+		if r.Chance(30) {
+			ed = fmt.Sprintf(" edit=%d", 1+r.Intn(3))
+		}
+		return fmt.Sprintf("codec find d=default app=0 %s q=path:%s%s", showAVPs(as), strings.Join(cs, "."), ed)
 	}
 	var codes []string
 	k := 1
@@ -1233,6 +1288,9 @@ func genFind(r *RNG) string {
 			}
 		}
 		line += " names=" + strings.Join(names, ",")
+	}
+	if k > 0 && r.Chance(30) { // the tree is edited between two queries
+		line += fmt.Sprintf(" edit=%d", 1+r.Intn(3))
 	}
 	return line
 }
